@@ -154,7 +154,7 @@ def dce_tie(ctx, progs, res):
 OPAQUE = re.compile(r'\(EOther "(range|slice|struct|cast)"\)')
 
 
-def unused_tie(ctx, progs, res):
+def unused_tie(ctx, progs, res, key="pass:unused", fid="unused_fid", label="unused_model_tie"):
     """Fidelity of Model/Opt/Unused.v: the model pass, evaluated inside Coq on the typed AST the real
     front end produced, must give exactly the AST the real UnusedVarEliminator produces from it.
     Skipped (counted): programs with a `pub let` (not represented in Model/Lang.v) and programs
@@ -162,7 +162,7 @@ def unused_tie(ctx, progs, res):
     cases, idx, skipped = [], [], collections.Counter()
     for i in range(len(progs)):
         a = res.get(i, {}).get("ast", {})
-        out = a.get("pass:unused")
+        out = a.get(key)
         if "in" not in a or not out:
             continue
         if out.startswith("PANIC"):
@@ -176,23 +176,23 @@ def unused_tie(ctx, progs, res):
             continue
         cases.append(f"{a['in']} {out}")
         idx.append(i)
-    codes, err = vlib.coq_eval_codes("c01un", "From Aelys Require Import Model.Lang Model.Opt.UnusedObs.", "unused_fid", cases, shard=80)
+    codes, err = vlib.coq_eval_codes("c01" + fid[:9].replace("_", ""), "From Aelys Require Import Model.Lang Model.Opt.UnusedObs.", fid, cases, shard=80)
     if err:
         ctx.broken.append("correspondence C01: unused-variable model evaluation failed")
         ctx.log(err[-2000:])
     cc = collections.Counter(c for c in codes if c is not None)
     differs = [idx[k] for k, c in enumerate(codes) if c == 1]
     if differs:
-        ctx.broken.append(f"correspondence C01: Model/Opt/Unused.v differs from the real unused-variable pass on {len(differs)} of {len(cases)} programs")
-        ctx.cov["unused_model_differs_example"] = {"program": progs[differs[0]][:3000],
-                                                   "real_pass_output": res[differs[0]]["ast"]["pass:unused"][:3000]}
+        ctx.broken.append(f"correspondence C01: Model/Opt/Unused.v ({fid}) differs from the real unused-variable pass on {len(differs)} of {len(cases)} programs")
+        ctx.cov[label + "_differs_example"] = {"program": progs[differs[0]][:3000],
+                                                   "real_pass_output": res[differs[0]]["ast"][key][:3000]}
     if cases and cc.get(0, 0) < max(5, len(cases) // 50):
-        ctx.broken.append(f"correspondence C01: the unused-variable tie is starved (the pass deletes something in only {cc.get(0, 0)} of {len(cases)} programs)")
-    ctx.cov["unused_model_tie"] = {"programs": len(cases), "model_equals_real_pass_and_deletes": cc.get(0, 0),
+        ctx.broken.append(f"correspondence C01: the unused-variable tie ({fid}) is starved (the pass deletes something in only {cc.get(0, 0)} of {len(cases)} programs)")
+    ctx.cov[label] = {"programs": len(cases), "model_equals_real_pass_and_deletes": cc.get(0, 0),
                                    "model_equals_real_pass_nothing_deleted": cc.get(2, 0), "model_differs_from_real_pass": cc.get(1, 0),
                                    "skipped": dict(skipped)}
     ctx.cov["evaluations"] = ctx.cov.get("evaluations", 0) + len(cases)
-    ctx.log(f"unused-variable model tie: {dict(cc)} skipped {dict(skipped)}")
+    ctx.log(f"unused-variable model tie ({fid}): {dict(cc)} skipped {dict(skipped)}")
 
 
 def run(ctx):
@@ -217,11 +217,12 @@ def run(ctx):
     rp = c02.replay_program(ctx)
     if rp is not None:
         progs, feats = [rp], [["replay"]]
-    res = c02.run_stream(ctx, progs, passes="dce,unused")
+    res = c02.run_stream(ctx, progs, passes="dce,unused,unused-open")
     if res is None:
         return
     dce_tie(ctx, progs, res)
     unused_tie(ctx, progs, res)
+    unused_tie(ctx, progs, res, key="pass:unused-open", fid="unused_open_fid", label="unused_session_unit_model_tie")
     cases, idx = [], []
     dist, featc = collections.Counter(), collections.Counter()
     impl_bad = 0
